@@ -5,7 +5,9 @@
    denotes u p        port p lies in one of the listed ranges of u
    step / run         the LTS over the code's atomic sections (model/C19_Hop.v); a run is ANY action
                       list: every interleaving of hops (with any subset of failed listens and any
-                      index draws), writes, arrivals, reads, deadline/buffer settings and Close. *)
+                      index draws), writes, arrivals, reads, deadline/buffer settings and Close.
+   ce                 socket faults: ce k = "Close() of socket k reports an error"; every theorem
+                      about step / run holds for EVERY such assignment. *)
 From Hy Require Import lib.Res gen.ParamsC19 model.C19_PortUnion model.C19_Hop proof.C19_PortUnion proof.C19_Grammar proof.C19_Hop.
 From Coq Require Import ZArith List Sorting.Sorted Strings.String.
 Import ListNotations.
@@ -70,19 +72,19 @@ Print Assumptions C19_wildcard_and_malformed.
    port of the denoted set (the address list is Ports of the parsed union, all with the server's
    IP), is a WriteTo call made while the conn is open, and leaves through the newest socket
    (k = cur = the last socket created), which is open. *)
-Theorem C19_writes_in_set : forall e u ps r0 s0 acts k port d,
+Theorem C19_writes_in_set : forall e u ps ce r0 s0 acts k port d,
   parse_raw e = Some u -> hop_ports e = Some ps -> init ps true r0 = Ok s0 ->
-  In (OSockWrite k port d) (snd (run ps s0 acts)) ->
+  In (OSockWrite k port d) (snd (run ps ce s0 acts)) ->
   denotes u port /\
   exists pre post, acts = pre ++ AWrite d :: post /\
-    let s := fst (run ps s0 pre) in
+    let s := fst (run ps ce s0 pre) in
     closed s = false /\ k = cur s /\ S k = List.length (socks s) /\ sock_open (socks s) k = true /\
     nth_error ps (idx s) = Some port.
 Proof.
-  intros e u ps r0 s0 acts k port d Hr Hp Hi Hin.
+  intros e u ps ce r0 s0 acts k port d Hr Hp Hi Hin.
   destruct (hop_ports_denotes e u Hr) as (ps' & Hp' & _ & _ & _ & Hd).
   rewrite Hp in Hp'. inversion Hp'; subst ps'.
-  destruct (writes_in_set ps r0 s0 acts k port d Hi Hin) as [H1 H2].
+  destruct (writes_in_set ps ce r0 s0 acts k port d Hi Hin) as [H1 H2].
   split; [now apply Hd|exact H2].
 Qed.
 Print Assumptions C19_writes_in_set.
@@ -91,14 +93,14 @@ Print Assumptions C19_writes_in_set.
    successful listen the conn starts (no panic) with exactly one open socket. *)
 Theorem C19_init : forall e u r0, parse_raw e = Some u ->
   exists ps, hop_ports e = Some ps /\ init ps false r0 = Err EOther /\
-  exists s0, init ps true r0 = Ok s0 /\ reachable ps s0 /\
+  exists s0, init ps true r0 = Ok s0 /\ (forall ce, reachable ps ce s0) /\
              socks s0 = [mkSock true 0] /\ prev s0 = None /\ cur s0 = 0%nat /\ closed s0 = false.
 Proof.
   intros e u r0 Hr. destruct (hop_ports_denotes e u Hr) as (ps & Hp & Hne & _).
   exists ps. split; [exact Hp|]. split; [reflexivity|].
   destruct ps as [|p ps]; [congruence|].
   eexists. split; [reflexivity|]. split; [|repeat split].
-  exists r0, (mkSt None 0 (r0 mod List.length (p :: ps)) false [mkSock true 0] [] 0 0 0 0 0 []), [].
+  intros ce. exists r0, (mkSt None 0 (r0 mod List.length (p :: ps)) false [mkSock true 0] [] 0 0 0 0 0 []), [].
   split; reflexivity.
 Qed.
 Print Assumptions C19_init.
@@ -106,18 +108,18 @@ Print Assumptions C19_init.
 (* In every reachable state the open sockets are exactly {prev, cur} (none once closed), hence at
    most two; every socket ever created is either open and never closed, or closed exactly once;
    a failed listen changes nothing (prev is not forgotten, nothing is closed). *)
-Theorem C19_two_sockets : forall ps s, reachable ps s ->
+Theorem C19_two_sockets : forall ps ce s, reachable ps ce s ->
   (forall k, sock_open (socks s) k = true <-> closed s = false /\ (k = cur s \/ prev s = Some k)) /\
   (forall l, NoDup l -> (forall k, In k l -> sock_open (socks s) k = true) -> (List.length l <= 2)%nat) /\
   (forall k x, nth_error (socks s) k = Some x ->
      (s_open x = true /\ s_closes x = 0) \/ (s_open x = false /\ s_closes x = 1)) /\
-  (forall r, fst (step ps s (AHop false r)) = s).
+  (forall r, fst (step ps ce s (AHop false r)) = s).
 Proof.
-  intros ps s R. pose proof (reachable_inv ps s R) as I.
+  intros ps ce s R. pose proof (reachable_inv ps ce s R) as I.
   split; [intros k; exact (open_iff ps s k I)|].
   split; [intros l; exact (at_most_two ps s l I)|].
   split; [intros k x; exact (closed_once_or_open ps s k x I)|].
-  intros r. exact (failed_listen_changes_nothing ps s r).
+  intros r. exact (failed_listen_changes_nothing ps ce s r).
 Qed.
 Print Assumptions C19_two_sockets.
 
@@ -127,58 +129,112 @@ Print Assumptions C19_two_sockets.
    the items returned by reads, in order, followed by what is still queued (FIFO, no loss, no
    duplication).  The next successful hop closes that socket (its arrivals are dropped) while the
    old current socket, now prev, and the new one are open. *)
-Theorem C19_prev_still_delivers : forall ps s, reachable ps s -> closed s = false ->
+Theorem C19_prev_still_delivers : forall ps ce s, reachable ps ce s -> closed s = false ->
   (forall k x, (k = cur s \/ prev s = Some k) -> (List.length (queue s) < packetQueueSize)%nat ->
-     step ps s (AArrive k x) = (with_queue s (queue s ++ [IPkt x]), [])) /\
+     step ps ce s (AArrive k x) = (with_queue s (queue s ++ [IPkt x]), [])) /\
   (forall rid pick x q, In rid (armed s) -> queue s = x :: q ->
-     step ps s (AReadSelect rid pick) =
+     step ps ce s (AReadSelect rid pick) =
        (with_armed (with_queue s q) (remove_rid rid (armed s)), [ORet (ret_of_item x)])) /\
   (forall p r, prev s = Some p ->
-     let s' := fst (step ps s (AHop true r)) in
+     let s' := fst (step ps ce s (AHop true r)) in
      prev s' = Some (cur s) /\ cur s' = List.length (socks s) /\
      sock_open (socks s') p = false /\ sock_open (socks s') (cur s) = true /\
      sock_open (socks s') (cur s') = true /\
-     forall x, step ps s' (AArrive p x) = (s', [])) /\
-  (forall l, map ret_of_item (queue s) ++ map ret_of_item (accepted ps s l) =
-             returned (snd (run ps s l)) ++ map ret_of_item (queue (fst (run ps s l)))).
+     forall x, step ps ce s' (AArrive p x) = (s', [])) /\
+  (forall l, map ret_of_item (queue s) ++ map ret_of_item (accepted ps ce s l) =
+             returned (snd (run ps ce s l)) ++ map ret_of_item (queue (fst (run ps ce s l)))).
 Proof.
-  intros ps s R Hc. pose proof (reachable_inv ps s R) as I.
-  split; [intros k x Hk Hq; exact (arrive_delivers ps s k x I Hc Hk Hq)|].
-  split; [intros rid pick x q Ha Hq; exact (read_fifo ps s rid pick x q Ha Hc Hq)|].
-  split; [intros p r Hp; exact (hop_closes_prev ps s r p I Hc Hp)|].
-  intros l. exact (run_fifo ps l s).
+  intros ps ce s R Hc. pose proof (reachable_inv ps ce s R) as I.
+  split; [intros k x Hk Hq; exact (arrive_delivers ps ce s k x I Hc Hk Hq)|].
+  split; [intros rid pick x q Ha Hq; exact (read_fifo ps ce s rid pick x q Ha Hc Hq)|].
+  split; [intros p r Hp; exact (hop_closes_prev ps ce s r p I Hc Hp)|].
+  intros l. exact (run_fifo ps ce l s).
 Qed.
 Print Assumptions C19_prev_still_delivers.
 
 (* Close: afterwards every socket ever created is closed, each exactly once; Close itself closes
-   prev (if any) and cur and nothing else.  On a closed conn, for ever after and under every
-   further action sequence: hops do not even call ListenUDPFunc, no socket is written, the census
-   does not change, WriteTo and a ReadFrom that starts now fail with the closed error, and a second
-   Close is a no-op returning nil. *)
-Theorem C19_close_final : forall ps s, reachable ps s ->
+   prev (if any) and cur and nothing else, and returns what cur's Close reported.  On a closed
+   conn, for ever after and under every further action sequence: hops do not even call
+   ListenUDPFunc, no socket is written or closed again, the census does not change, WriteTo and a
+   ReadFrom that starts now fail with the closed error, and a second Close is a no-op returning
+   nil. *)
+Theorem C19_close_final : forall ps ce s, reachable ps ce s ->
   (closed s = false ->
-     let s' := fst (step ps s AClose) in
+     let s' := fst (step ps ce s AClose) in
      closed s' = true /\ List.length (socks s') = List.length (socks s) /\
      (forall k, (k < List.length (socks s'))%nat -> nth_error (socks s') k = Some (mkSock false 1)) /\
-     snd (step ps s AClose) = out_close_opt (prev s) ++ [OSockClose (cur s); ORet RNil]) /\
+     snd (step ps ce s AClose) =
+       out_close_opt ce (prev s) ++ [OSockClose (cur s) (ce (cur s)); ORet (if ce (cur s) then RSockErr else RNil)]) /\
   (closed s = true ->
      (forall k, (k < List.length (socks s))%nat -> nth_error (socks s) k = Some (mkSock false 1)) /\
-     (forall ok r, step ps s (AHop ok r) = (s, [])) /\
-     (forall d, step ps s (AWrite d) = (s, [ORet RClosed])) /\
-     (forall rid, step ps s (AReadBegin rid) = (s, [ORet RClosed])) /\
-     step ps s AClose = (s, [ORet RNil]) /\
-     (forall l, closed (fst (run ps s l)) = true /\ socks (fst (run ps s l)) = socks s /\
-        forall o, In o (snd (run ps s l)) ->
-          o <> OListen true /\ o <> OListen false /\ forall k p d, o <> OSockWrite k p d)).
+     (forall ok r, step ps ce s (AHop ok r) = (s, [])) /\
+     (forall d, step ps ce s (AWrite d) = (s, [ORet RClosed])) /\
+     (forall rid, step ps ce s (AReadBegin rid) = (s, [ORet RClosed])) /\
+     step ps ce s AClose = (s, [ORet RNil]) /\
+     (forall l, closed (fst (run ps ce s l)) = true /\ socks (fst (run ps ce s l)) = socks s /\
+        forall o, In o (snd (run ps ce s l)) ->
+          o <> OListen true /\ o <> OListen false /\ (forall k p d, o <> OSockWrite k p d) /\
+          forall k e, o <> OSockClose k e)).
 Proof.
-  intros ps s R. pose proof (reachable_inv ps s R) as I. split.
-  - intros Hc. exact (close_spec ps s I Hc).
-  - intros Hc. destruct (closed_absorbing ps s Hc) as (H1 & H2 & H3 & H4 & _).
+  intros ps ce s R. pose proof (reachable_inv ps ce s R) as I. split.
+  - intros Hc. exact (close_spec ps ce s I Hc).
+  - intros Hc. destruct (closed_absorbing ps ce s Hc) as (H1 & H2 & H3 & H4 & _).
     split; [intros k Hk; exact (closed_all_closed ps s k I Hc Hk)|].
     split; [exact H1|]. split; [exact H2|]. split; [exact H3|]. split; [exact H4|].
-    intros l. exact (closed_stays ps l s Hc).
+    intros l. exact (closed_stays ps ce l s Hc).
 Qed.
 Print Assumptions C19_close_final.
+
+(* Socket faults do not keep Close from closing.  For EVERY assignment ce of "Close() of socket k
+   reports an error" (none, prev's, cur's, both, any sockets closed by earlier hops) and every
+   reachable state: the assignment influences no state at all, only the recorded results of the
+   socket Close calls and the value Close returns (so the same states are reachable under every
+   assignment).  Close on an open conn calls Close on prev (if any) and on cur, each once, whatever
+   the first call reported; it returns cur's error (prev's is dropped) only after the closed flag is
+   set (closeChan closed); afterwards every socket ever created is closed exactly once, and from the
+   resulting state: a hop opens nothing (ListenUDPFunc is not called), WriteTo and a new ReadFrom
+   fail with the closed error, every ReadFrom that was parked in its select when Close came can
+   return (with the closed error if the queue is empty or the select picks closeChan) and is then
+   no longer parked, whereas on the open conn with an empty queue it was blocked; a second Close
+   returns nil; and under every further action sequence nothing is listened on, written or closed
+   again and the census stays as it is. *)
+Theorem C19_close_despite_socket_errors : forall ps ce s, reachable ps ce s ->
+  (forall ce' l, fst (run ps ce' s l) = fst (run ps ce s l)) /\
+  (forall ce', reachable ps ce' s) /\
+  (closed s = false ->
+     let s' := fst (step ps ce s AClose) in
+     snd (step ps ce s AClose) =
+       out_close_opt ce (prev s) ++ [OSockClose (cur s) (ce (cur s)); ORet (if ce (cur s) then RSockErr else RNil)] /\
+     closed s' = true /\ List.length (socks s') = List.length (socks s) /\
+     (forall k, (k < List.length (socks s'))%nat -> nth_error (socks s') k = Some (mkSock false 1)) /\
+     (forall ok r, step ps ce s' (AHop ok r) = (s', [])) /\
+     (forall d, step ps ce s' (AWrite d) = (s', [ORet RClosed])) /\
+     (forall rid, step ps ce s' (AReadBegin rid) = (s', [ORet RClosed])) /\
+     (forall rid pick, In rid (armed s) ->
+        (queue s = [] -> step ps ce s (AReadSelect rid pick) = (s, [])) /\
+        exists s'' r, step ps ce s' (AReadSelect rid pick) = (s'', [ORet r]) /\ ~ In rid (armed s'') /\
+                      closed s'' = true /\ socks s'' = socks s' /\
+                      (queue s = [] \/ pick = true -> r = RClosed)) /\
+     step ps ce s' AClose = (s', [ORet RNil]) /\
+     (forall l, closed (fst (run ps ce s' l)) = true /\ socks (fst (run ps ce s' l)) = socks s' /\
+        forall o, In o (snd (run ps ce s' l)) ->
+          o <> OListen true /\ o <> OListen false /\ (forall k p d, o <> OSockWrite k p d) /\
+          forall k e, o <> OSockClose k e)).
+Proof.
+  intros ps ce s R. pose proof (reachable_inv ps ce s R) as I.
+  split; [intros ce' l; exact (run_state_indep ps ce ce' l s)|].
+  split; [intros ce'; exact (reachable_indep ps ce ce' s R)|].
+  intros Hc. destruct (close_spec_faults ps ce s I Hc) as (H1 & H2 & H3 & H4 & H5 & H6 & I').
+  destruct (closed_absorbing ps ce _ H2) as (A1 & A2 & A3 & A4 & _).
+  split; [exact H1|]. split; [exact H2|]. split; [exact H3|]. split; [exact H4|].
+  split; [exact A1|]. split; [exact A2|]. split; [exact A3|].
+  split.
+  - intros rid pick Ha. split; [intros Hq; exact (read_blocked ps ce s rid pick Hc Hq)|].
+    rewrite <- H5 in Ha. destruct (read_woken ps ce _ rid pick H2 Ha) as (s'' & r & E1 & E2 & E3 & E4 & E5).
+    exists s'', r. rewrite H6 in E5. repeat split; assumption.
+  - split; [exact A4|]. intros l. exact (closed_stays ps ce l _ H2).
+Qed.
+Print Assumptions C19_close_despite_socket_errors.
 
 (* Hop interval: (0,0) means the default; one-sided, min > max and min below the minimum are
    rejected; anything accepted satisfies minimum <= min <= max and is unchanged; the next hop
